@@ -164,7 +164,10 @@ def cell_to_lonlat(cell_id: int) -> LonLat:
     cell = deserialize(cell_id)
     pentagon = _get_pentagon(cell)
     point = _dodecahedron.inverse(pentagon.get_center(), cell["origin"].id)
-    return to_lonlat(point)
+    longitude, latitude = to_lonlat(point)
+    # to_lonlat measures longitude from the dodecahedron frame (-273..87), wrap into -180..180
+    longitude = (longitude + 180) % 360 - 180
+    return (longitude, latitude)
 
 def cell_to_boundary(
     cell_id: int,
